@@ -725,6 +725,22 @@ class Plan:
             cases = [self.new_case(r, vs, cfg, script, f"names:{lab}") for lab, cfg in kappa_list(gapless)
                      if lab in ("match_nab", "table_table", "auto", "inline", "mixed1", "mixed2")]
             self.add_group("C09", cases, "names_fixed")
+        # names of EQUAL length in characters but not in bytes (a fixed-width packing of the name table would mix them up),
+        # equal length in bytes but not in characters, all empty but one, ...
+        for k, names in enumerate((["äb", "cd", "€f", "gh", "ij"], ["ä", "b", "ß", "d"], ["aaa", "日本語", "bbb"], ["ab", "é", "cd"],
+                                   ["", "", "x"], ["USD", "EUR", "ÄÖÜ", "JPY", "CHF", "€€€"])):
+            for r, gap in (("u8", True), ("i64", False)):
+                n = len(names)
+                reals = list(range(2, 2 + n)) if gap else [(-7 if prim.signed(r) else 1) + 3 * j + (j // 2) for j in range(n)]
+                order = list(range(n))
+                rng.shuffle(order)
+                vs = [{"ident": f"W{i}", "real": reals[i], "lit": str(reals[i]), "rename": names[i]} for i in order]
+                p = prim.Proj(r)
+                probes = sorted({p.to_model(x + d) for x in reals for d in (-1, 0, 1) if prim.tmin(r) <= x + d <= prim.tmax(r)})
+                script = make_script(vs, r, probes, rng, level="light", str_cap=30, pairs_cap=6)
+                cases = [self.new_case(r, vs, cfg, script, f"names:w{k}:{lab}") for lab, cfg in kappa_list(runs_of(reals) == 1)
+                         if lab in ("match_nab", "table_table", "auto", "inline", "mixed1")]
+                self.add_group("C09", cases, "names_fixed")
 
     # -- F2: discriminants that are far apart by (almost) a power of two: a span computed in a narrower type aliases
     #        them with a gapless enum  (span = count - 1  modulo 2^k)
